@@ -18,6 +18,8 @@ def generate(seed, scratch):
     r = core.rng_for(seed, "gen")
     world, cfg = gen.gen_world(r, "c18")
     rs = core.rng_for(seed, "sched")
+    if cfg["faults"].get("unknown_flag") and rs.random() < 0.3:
+        world["cbi_config"] = '[compiler.gcc]\noptions = ["-DFROM_CONFIG", "-mfancy-extension"]\n'
     fault_free = rs.random() < 0.25
     repairs = 0
     if fault_free:
@@ -132,6 +134,8 @@ def expected_events(world, top, model, ev):
                 exp["compilers"].append(a["compiler"])
             unknown = [f for f in a["other"]
                        if not (f == "-fopenmp" and a["compiler"] in refmodel.BUILTIN_COMPILERS)]
+            if world.get("cbi_config") and "-mfancy-extension" in world["cbi_config"] and a["compiler"] in ("gcc", "g++"):
+                unknown = unknown + ["-mfancy-extension"]      # implicit options of the (extended) compiler definition
             if unknown:
                 exp["flags"].append(unknown)
         if healthy == 0:
